@@ -24,8 +24,19 @@ def r17(chk, P):
     # pointer stores into the caller's buffer: *buffer++ = .. / *dest = ..   (dest derived from buffer)
     stores = []
 
+    ftoi_args = {}
+
     def obs(A, env, e, v):
         nd = A.ex[e]
+        if nd['k'] == 'call' and nd['callee'].get('d') == 'vorbis_ftoi' and nd.get('c') and A.final:
+            av = A.peek(env, nd['c'][0])
+            tmp = env.get('$tmp') or {}
+            a0 = A.F.strip_casts(nd['c'][0])
+            if a0 in tmp:
+                av = tmp[a0]
+            elif nd['c'][0] in tmp:
+                av = tmp[nd['c'][0]]
+            ftoi_args[e] = absint.join(ftoi_args.get(e), av) if e in ftoi_args else av
         if nd['k'] != 'assign' or nd['op'] != '=':
             return
         l = A.ex[A.F.strip_casts(nd['c'][0])]
@@ -153,6 +164,20 @@ def r17(chk, P):
                         msg = f'returns {cnt}*{F.s(other)} with {F.s(other)} = {d}'
     chk.ob('R17.4', F.name, 'bytes-returned', ok, F.where(reads[0]), msg or 'no return of count*bytespersample found')
 
+    chk.rule('R17.8', 'samples are clipped before they are converted: at every vorbis_ftoi call of ov_read_filter the argument lies '
+             'within the range of int in every state that reaches the call (K4 floating intervals, refined by the clipping '
+             'comparisons).  Converting a value that does not fit an int yields INT_MIN on x86 (and is undefined in ISO C) '
+             'whatever its sign, so a decoded sample far above full scale would come out as the most negative value instead of '
+             'the largest ("clipped to the representable range"); decoded values are not bounded by the format')
+    for i_, c_ in enumerate(sorted(ftoi_args, key=lambda x: F.ex[x]['loc'])):
+        v_ = ftoi_args[c_]
+        ok_ = v_ is not None and v_.lo >= -2 ** 31 and v_.hi <= 2 ** 31 - 1
+        chk.ob('R17.8', F.name, f'conversion-argument-fits-int#{i_}', ok_, F.where(c_),
+               f'`{F.s(c_)[:50]}`: argument {v_}' if ok_ else
+               f'`{F.s(c_)[:50]}`: the argument can be {v_}: a sample beyond +-2^31/scale is converted before it is clipped and '
+               'comes out as INT_MIN whatever its sign')
+    chk.require(len(ftoi_args) >= 3, 'ov_read_filter: fewer than 3 vorbis_ftoi calls seen')
+
     chk.rule('R17.7', 'a read that delivers data never answers 0: the value of the data return of ov_read_filter (the return of '
              'frame count times bytes per frame behind vorbis_synthesis_read) is at least 1 in every state that reaches it '
              '(K4) -- 0 is the end-of-stream answer, and a buffer too small for one frame of the link actually being '
@@ -182,6 +207,7 @@ def run(chk, P):
     chk.floor('R17.2', 12)
     chk.floor('R17.3', 2)
     chk.floor('R17.7', 1)
+    chk.floor('R17.8', 3)
     from rules import c09
 
     class Proxy:
